@@ -46,6 +46,13 @@ def check(ctx):
     run_premise(ctx, "C12", "R-PURGE", "carried-over", "the CONNACK purge fails only what an earlier connection left behind",
                 "a publish made on this connection is failed (or re-sent) by the session code at the CONNACK: its Deferred fires without "
                 "the acknowledgement, and the acknowledgement that follows finds nothing", only=lambda f: f.rule in ("Y-MARK", "Y-EXEMPT"))
+    # "only when a PUBACK / PUBCOMP for its identifier arrives": each handler looks the identifier up in its own window.  The windows of
+    # one address are separate containers only if buildProtocol makes them so: one dict stored under two registries lets an inbound QoS 2
+    # message and an outbound exchange with the same number overwrite or delete each other's entry
+    run_premise(ctx, "C19", "R-LOOKUP", "containers", "every registry of an address has a container of its own",
+                "two registries of one address share a container: a handler of the other registry replaces or removes the entry of a publish "
+                "in flight, whose acknowledgement then finds nothing and whose Deferred never fires",
+                only=lambda f: f.rule in ("I-FRESH", "I-SHARED") and "windowPub" in f.construct)
     caps, pm, _ = capabilities(a)
     classes = [c for c in a.protos if "pub" in caps.get(c.qual, set())]
     ctx.floor("publisher-capable classes", len(classes), 2)
